@@ -89,6 +89,8 @@ func (ctx *Context) Parse(value string) error {
 	// 开始解析，编译字节码
 	if ctx.Config.ParseExprLimit != 0 {
 		p.maxExprCnt = ctx.Config.ParseExprLimit
+		// 超出上限时解析器以 panic(errMaxExprCnt) 中止，需要开启 recover 才能转成错误返回
+		p.recover = true
 	}
 	// 设置错误消息语言
 	SetParseErrorLanguage(ctx.Config.ParseErrorLanguage)
